@@ -211,7 +211,8 @@ def check_case(case):
 
     case = _shifted(case)
     A = case["A"]
-    ga = gen.to_garr(A)
+    # start/end arrive as int64, int32, unsigned or float64 columns (seeded change C06i left unsigned columns unconverted)
+    ga = gen.to_garr(A, coord_dtype=gen.coord_dtype(case, A, "A"))
     _relabel(ga, case.get("index"))
     a_by = gen.by_chrom(A)
     chroms = _chrom_order(A)
@@ -219,7 +220,7 @@ def check_case(case):
 
     if case["kind"] == "pair":
         B = case["B"]
-        gb = gen.to_garr(B)
+        gb = gen.to_garr(B, coord_dtype=gen.coord_dtype(case, B, "B"))
         _relabel(gb, case.get("index"))
         b_by = gen.by_chrom(B)
         # ---- subtract: per row of A, exactly the bases not in B, other fields kept
